@@ -31,6 +31,7 @@ import json
 import os
 import random
 import re
+import time
 import warnings
 
 from vp import core
@@ -487,6 +488,12 @@ def run(tier, seed, replay=None):
         pairs = pair_histories()
         for name in ("ns", "rdflib", "examples"):
             plan.append((name, pairs, "pairs of Shapers, second one on the first one's dict object / own copy"))
+        if tier == "thorough":
+            first = ("N", 0, "own", SHAPES_NS)
+            len4 = [(first,) + tuple(rnd.choice(ALPHABET) for _ in range(4)) for _ in range(3000)]
+            len4 = sorted(set(len4))
+            for name in ("small", "examples"):
+                plan.append((name, len4, "sample of %d histories of length 4" % len(len4)))
         sub = single_histories(SUB_ALPHABET, 3 if tier == "thorough" else 2)
         nsample = 300 if tier == "thorough" else 40
         plan.append(("big", sub + rnd.sample(singles, nsample),
@@ -509,6 +516,7 @@ def run(tier, seed, replay=None):
     big_lines = None
     for name, hs, label in plan:
         cfg = cfgs[name]
+        t_plan = time.time()
         results, table, preds, refs = evaluate(cfg, hs, mb)
         if name == "big":
             big_lines = {t: refs[(SHAPES_NS, SHEXC, t)].count("\n") for t, _ in THRS}
@@ -545,7 +553,8 @@ def run(tier, seed, replay=None):
             if len(g) > 1:
                 group_conflicts.append((name, descr, list(g.items())[:2]))
         per_cfg.setdefault(name, []).append({"what": label, "histories": len(hs), "calls_deviating_from_pure": n_sf,
-                                             "distinct_predictions": len(groups)})
+                                             "distinct_predictions": len(groups),
+                                             "wall_s": round(time.time() - t_plan, 1)})
         pick = rnd.sample(range(len(hs)), min(len(hs), 6 if tier == "quick" else 12))
         vm_cases.append(("c18_run", [table[i] for i in pick], [preds[i] for i in pick]))
         i = pick[0]
